@@ -24,7 +24,7 @@
 #include <stddef.h>
 #include <stdint.h>
 
-#define VTAPE_MAX 512
+#define VTAPE_MAX 2048
 
 #ifdef VERIF_NATIVE
 /* ------------------------------------------------------------------ native */
